@@ -225,6 +225,29 @@ def run_qr(case):
             events.append(judge("qr/open-shell-restricted-force-bias-unchanged", r_f, 1e-8, key + "/restricted-open/fb/" + kind))
         cnt["qr_batches"] += 1
         containers = containers + ["restricted-open"]
+    # ---- orthonormalisation of a complete prop_data (as the sampler calls it): every cached per-walker quantity that the routine touches
+    # must afterwards belong to the new walkers; what it leaves alone is the caller's to refresh (C08).  Restricted containers for closed
+    # AND open shells (the dn determinant is the leading n_dn columns), unrestricted containers.
+    if case["cond"] != "illcond" and nb > 0:
+        import copy as _copy
+
+        full = []
+        if "u" in t["entries"]:
+            full.append(("u", propagation.propagator_unrestricted(n_walkers=nw), [jnp.array(up), jnp.array(dn)]))
+        if kind in ("rhf", "uhf", "ghf", "noci") and (na == nb or kind != "rhf"):
+            full.append(("r-open" if na > nb else "r", propagation.propagator_restricted(n_walkers=nw), jnp.array(up * (10.0 ** rng.uniform(-1, 1, size=(nw, 1, na))))))
+        for cname, prop_f, w_in in full:
+            ov_in = np.asarray(trial.calc_overlap(w_in, wd_))
+            pd_in = {"walkers": list(w_in) if isinstance(w_in, list) else w_in, "overlaps": jnp.array(ov_in), "weights": jnp.ones(nw)}
+            pd_out = prop_f.orthonormalize_walkers(_copy.copy(pd_in))
+            ov_out = np.asarray(pd_out["overlaps"])
+            ov_new = np.asarray(trial.calc_overlap(pd_out["walkers"], wd_))
+            untouched = bool(np.array_equal(ov_out, ov_in))
+            coherent = float(np.max(np.abs(ov_out - ov_new) / np.maximum(np.abs(ov_new), 1e-300)))
+            events.append(ev("qr/cached-overlaps-untouched-or-coherent", bool(untouched or coherent < 1e-9), key=key + "/cached-overlaps/" + cname,
+                             untouched=untouched, incoherence=coherent, container=cname))
+            events.append(ev("qr/weights-untouched", bool(np.array_equal(np.asarray(pd_out["weights"]), np.ones(nw))), key=key + "/weights-untouched/" + cname))
+            cnt["qr_full_prop_data"] = cnt.get("qr_full_prop_data", 0) + 1
     nontriv = bool(containers)
     return {"events": events, "nontrivial": nontriv, "sample": {"kind": kind, "nelec": [na, nb], "walkers": nw, "cond_class": case["cond"],
                                                                  "containers": containers}, "counters": cnt}
